@@ -505,6 +505,13 @@ func downloadImpl(ctx context.Context, name, sha3_384, downloadURL string, user 
 			if _, err := w.Seek(0, io.SeekStart); err != nil {
 				return err
 			}
+			// what is in the file is of no use any more: drop it, otherwise
+			// a shorter body leaves stale bytes behind the hashed data
+			if t, ok := w.(interface{ Truncate(int64) error }); ok {
+				if err := t.Truncate(0); err != nil {
+					return err
+				}
+			}
 			h = crypto.SHA3_384.New()
 			resume = 0
 		}
